@@ -98,6 +98,8 @@ class Ctx:
         self.nt_hashes = set()
         self.nt_enum = 0
         self.samples = []
+        self.case_samples = []
+        self._case_calls = 0
         self.failures = {}  # sig -> dict(count, case, detail)
         self.exhaustive = []  # names of finite spaces fully enumerated
         self.notes = []
@@ -121,6 +123,12 @@ class Ctx:
     def sample(self, obj, force=False):
         if len(self.samples) < 3 or (force and len(self.samples) < 6):
             self.samples.append(obj)
+
+    def case_sample(self, case):
+        """keep a few literal cases of an enumeration (the 1st, 1000th, 100000th)"""
+        self._case_calls += 1
+        if self._case_calls in (1, 1000, 100000):
+            self.case_samples.append(case)
 
     def exhausted(self, name):
         self.exhaustive.append(name)
@@ -150,6 +158,7 @@ class Ctx:
             "nt_hashes": self.nt_hashes,
             "nt_enum": self.nt_enum,
             "samples": self.samples,
+            "case_samples": self.case_samples,
             "failures": self.failures,
             "exhaustive": self.exhaustive,
             "notes": self.notes,
@@ -458,17 +467,20 @@ def main(argv=None):
                 failures[sig]["count"] += f["count"]
             else:
                 failures[sig] = dict(f)
-    # samples: round-robin over units for variety
-    k = 0
-    while len(samples) < MAX_SAMPLES:
-        took = False
-        for r in results:
-            if k < len(r["samples"]) and len(samples) < MAX_SAMPLES:
-                samples.append(r["samples"][k])
-                took = True
-        if not took:
-            break
-        k += 1
+    # samples: literal cases first, then descriptors of enumerated subspaces;
+    # round-robin over units for variety
+    for key, limit in (("case_samples", 8), ("samples", MAX_SAMPLES + 4)):
+        k = 0
+        while len(samples) < limit:
+            took = False
+            for r in results:
+                lst = r.get(key, [])
+                if k < len(lst) and len(samples) < limit:
+                    samples.append(lst[k])
+                    took = True
+            if not took:
+                break
+            k += 1
 
     violations = 0
     excluded_known = 0
